@@ -888,40 +888,49 @@ def runLine (ts : List String) : Verdict :=
         | .bytes _ bs _ => (be16 (bs.getD 28 0) (bs.getD 29 0), be16 (bs.getD 30 0) (bs.getD 31 0))
         | _ => (0, 0)
       let mp := runOps unit (newPacket v src seq off) ops 0
-      (match mp, out with
-      | .error (i, .pan c), .ctorPanic j c' =>
-        if (i : Int) == j && c' == "P:" ++ c.str then .viol s!"C15:ctor-panic-{c.str} a public constructor panicked (op {i})"
-        else .diff s!"constructor panic: model op {i} {c.str}, implementation op {j} {c'}"
-      | _, .ctorPanic j c' => .viol s!"C15:ctor-panic a public constructor panicked (op {j} {c'}) and the model does not"
-      | .error (i, .tooLong), .ctorErr j =>
-        if i == j then .ok ["newdata-err"] else .diff s!"NewData error at op {j}, model at op {i}"
-      | .error (i, .tooManyDims), .ctorErr j =>
-        if i == j then .ok ["newdata-err", "newdata-dims"] else .diff s!"NewData error at op {j}, model at op {i}"
-      | .error (i, _), _ => .diff s!"model: NewData fails at op {i}; implementation does not"
-      | .ok _, .ctorErr j => .diff s!"implementation: NewData error at op {j}; model accepts"
-      | .ok p, .bytes c bs d =>
-        (match encode p with
-        | .pan c => .diff s!"model Bytes() panics {c.str}"
-        | .ok mbs =>
-          -- oracle on the implementation's output: the real decoded packet against the real constructed one
-          let jd := judgeDec bs ln.reads ln.pseq ln.pn d
-          let wf := match c.sh with | some s => wfShape s | none => true
-          let rt : Option String := match d with
-            | .ok o => (firstFail (rtClauses c bs.length o)).map fun cl =>
-                s!"C15:roundtrip-{cl} decode(encode(p)) does not reproduce '{cl}'"
-            | .err e _ => if wf then some s!"C15:roundtrip-undecodable decode(encode(p)) fails with {e}" else none
-          match jd, rt with
-          | .error v, _ => .viol v
-          | _, some v => .viol v
-          | .ok tags, none =>
-            if summarize p != c then .diff "constructed packet: model and implementation differ (version/source/seq/offset/shape/timestamp/data)"
-            else if mbs != bs then .diff s!"Bytes(): first difference at byte {(firstDiff mbs bs 0).getD 0}"
-            else
-              let m := modelDec bs ln.reads ln.pseq ln.pn
-              if m == d then .ok (tags ++ (if wf then ["rt"] else ["rt-noshape"]) ++
-                  (if p.ts.isSome then ["rt-ts"] else []) ++ [s!"rt-data{p.data.kind}"])
-              else .diff (describeDiff m d))
-      | _, _ => .bad "output form does not fit a constructor script")
+      (match out with
+      | .ctorPanic j c' =>
+        -- a public constructor crashed on arguments of the right types: the packet cannot be built
+        (match mp with
+        | .error (i, .pan c) =>
+          if (i : Int) == j && c' == "P:" ++ c.str then .viol s!"C15:ctor-panic-{c.str} a public constructor panicked (op {i})"
+          else .diff s!"constructor panic: model op {i} {c.str}, implementation op {j} {c'}"
+        | _ => .viol s!"C15:ctor-panic a public constructor panicked (op {j} {c'}) and the model does not")
+      | .ctorErr j =>
+        (match mp with
+        | .error (i, .tooLong) =>
+          if i == j then .ok ["newdata-err"] else .diff s!"NewData error at op {j}, model at op {i}"
+        | .error (i, .tooManyDims) =>
+          if i == j then .ok ["newdata-err", "newdata-dims"] else .diff s!"NewData error at op {j}, model at op {i}"
+        | .error (i, .pan c) => .diff s!"model: NewData panics ({c.str}) at op {i}; implementation returns an error at op {j}"
+        | .ok _ => .diff s!"implementation: NewData error at op {j}; model accepts")
+      | .bytes c bs d =>
+        -- (1) oracle on the implementation's output: the real decoded packet against the real constructed one
+        let jd := judgeDec bs ln.reads ln.pseq ln.pn d
+        let wf := match c.sh with | some s => wfShape s | none => true
+        let rt : Option String := match d with
+          | .ok o => (firstFail (rtClauses c bs.length o)).map fun cl =>
+              s!"C15:roundtrip-{cl} decode(encode(p)) does not reproduce '{cl}'"
+          | .err e _ => if wf then some s!"C15:roundtrip-undecodable decode(encode(p)) fails with {e}" else none
+        (match jd, rt with
+        | .error v, _ => .viol v
+        | _, some v => .viol v
+        | .ok tags, none =>
+          -- (2) model against implementation
+          match mp with
+          | .error (i, _) => .diff s!"model: NewData fails at op {i}; implementation does not"
+          | .ok p =>
+            match encode p with
+            | .pan c => .diff s!"model Bytes() panics {c.str}"
+            | .ok mbs =>
+              if summarize p != c then .diff "constructed packet: model and implementation differ (version/source/seq/offset/shape/timestamp/data)"
+              else if mbs != bs then .diff s!"Bytes(): first difference at byte {(firstDiff mbs bs 0).getD 0}"
+              else
+                let m := modelDec bs ln.reads ln.pseq ln.pn
+                if m == d then .ok (tags ++ (if wf then ["rt"] else ["rt-noshape"]) ++
+                    (if p.ts.isSome then ["rt-ts"] else []) ++ [s!"rt-data{p.data.kind}"])
+                else .diff (describeDiff m d))
+      | _ => .bad "output form does not fit a constructor script")
     | _, _ => .bad "output form does not fit the input kind"
 
 end DastardV.C15
